@@ -42,7 +42,7 @@ MODES = ["stdio", "mmap", "buffer"]           # the three I/O paths of property 
 # knobs understood by the generators (see gen_write_history)
 AVOIDABLE = {
     "F1": "no run of >= 8 equal definition levels next to other levels inside one write_batch call",
-    "F2": "at most one write_batch call per page (page_size <= 64 or one batch per column and row group)",
+    "F2": "at most one write_batch call per page (page_size <= 64 or one batch per column and row group; no zero-row calls)",
     "F3": "OPTIONAL columns are always written with definition levels",
     "F5": "OPTIONAL columns get one page per chunk (one batch per column and row group, page cut only at its end); read with one call",
     "EMPTY_RG": "no write_batch call with zero rows and no row group without rows",
@@ -1252,7 +1252,8 @@ def build_history(rng, table, options, cuts, parts_per_group, avoid=frozenset(),
                 batches.append(rows[p:])
             if col.rep == "OPTIONAL" and "F1" in avoid and not single and ("F2" not in avoid or one_per_page):
                 batches = [q for b in batches for q in _split_f1(b)]
-            if extras and rng is not None and "EMPTY_RG" not in avoid and rng.random() < 0.08:
+            # (a zero-row call leaves its level block in the page of the NEXT call whatever the page size: F2)
+            if extras and rng is not None and "EMPTY_RG" not in avoid and "F2" not in avoid and rng.random() < 0.08:
                 batches.insert(rng.randrange(len(batches) + 1), [])
             cops = []
             for b in batches:
